@@ -28,7 +28,7 @@ TRUSTED = ["hand-written model coq/Dad/RpoModel.v of Graph.post_order and Graph.
 COQ_HEADER = "Require Import V.Dad.RpoModel."
 
 
-def build(case):
+def build(case, marks=False):
     from androguard.decompiler.graph import Graph
     from androguard.decompiler.node import Node
 
@@ -50,14 +50,14 @@ def build(case):
         for j in l:
             g.add_catch_edge(nodes[i], nodes[j])
     g.entry = nodes[entry]
-    if len(case) > 5 and case[5]:              # blocks of exception handlers, as construct() marks them before the later renumberings
+    if marks and len(case) > 5 and case[5]:    # blocks of exception handlers, as construct() marks them before the later renumberings
         for i in case[5]:
             nodes[i].in_catch = True
     return g, nodes
 
 
 def impl(case):
-    g, nodes = build(case)
+    g, nodes = build(case, marks=True)
     g.compute_rpo()
     idx = {x: i for i, x in enumerate(nodes)}
     return [[x.num for x in nodes], [idx[x] for x in g.rpo]]
